@@ -51,8 +51,7 @@ def gen():
 
 
 def replay(path):
-    print("C01 cases are replayed by re-running ./vcheck C01 (deterministic); the case id names the failing input")
-    sys.exit(2)
+    vlib.replay_enum(PID, build(), path, env={"VERIF_GOLDEN": GOLDEN, "VERIF_REPO": vlib.REPO})
 
 
 if __name__ == "__main__":
